@@ -541,7 +541,11 @@ class ReactorAdapter(CoreAdapter):
 # keys
 # ------------------------------------------------------------------------------------------------------------
 def pattern_class(pat):
-    cells = {tuple(c) for c in pat}
+    """input class of a loading pattern (part of the violation keys): judged on the cells that are not edge cells, because
+    convert discards the edge assemblies first"""
+    cells = {tuple(c) for c in pat if cell_class(tuple(c)) != "line120"}
+    if not cells:
+        return "edges-only"
     if cells == {(0, 0)}:
         return "centre-only"
     if (0, 0) not in cells:
